@@ -5,5 +5,14 @@ import os, subprocess, sys
 VERIF = os.path.dirname(os.path.dirname(os.path.abspath(__file__)))
 LEAN = os.path.join(VERIF, "lean")
 os.makedirs(os.path.join(LEAN, "RelicVerif", "Gen"), exist_ok=True)
+sys.path.insert(0, os.path.join(VERIF, "tools"))
+import relicbuild, translate
+b, err = relicbuild.build("base")
+if b is None:
+    print(err)
+    sys.exit(1)
+g = translate.generate_all(b)
+if g["failures"]:
+    print("translator failures:", g["failures"])
 r = subprocess.run(["lake", "build", "RelicVerif", "driver"], cwd=LEAN)
 sys.exit(r.returncode)
